@@ -118,7 +118,20 @@ def run_rules(pid, src, tier, scratch_root):
     ctx = Ctx(src, factsdir, tier, scratch_root)
     mod = importlib.import_module('sa.rules.' + pid.lower())
     rep = Report(pid)
-    mod.check(ctx, rep)
+    try:
+        mod.check(ctx, rep)
+    except facts.Broken:
+        raise
+    except Exception as e:      # noqa: BLE001 - a rule met a construct it cannot digest: fail closed with a diagnosable report
+        import traceback
+        tb = traceback.extract_tb(e.__traceback__)
+        last = [f for f in tb if '/sa/rules/' in f.filename] or list(tb)
+        fr = last[-1]
+        rep.unknown('INTERNAL', '%s/%s' % (os.path.basename(fr.filename), fr.name), '',
+                    'rule code could not follow this tree (%s: %s at %s:%d): reported as not recognised, the property is NOT shown to hold' % (
+                        type(e).__name__, str(e)[:120], os.path.basename(fr.filename), fr.lineno))
+        if os.environ.get('VERIF_DEBUG'):
+            traceback.print_exc()
     return rep, ctx
 
 
